@@ -412,6 +412,7 @@ Definition step (F : ifunc) (pc : nat) (fr : frame) (st : vmstate) (i : instr) :
           if forallb (fun v => match get_list (hp st) v with Some _ => true | None => false end) vs
           then let '(h1, ad) := alloc (hp st) (OList vs) in next (rset fr ref (VRef ad)) (with_heap st h1)
           else StFail EAssert
+      | ITInt _ | ITFloat => match vs with [v] => next (rset fr ref v) st | _ => StFail EICE end   (* a scalar is its (converted) argument *)
       | _ => StFail EICE
       end)
   | IUnknown _ => StFail EUnhandledOpcode
